@@ -20,6 +20,7 @@
 EXTENDS Naturals, Sequences, FiniteSets
 
 CONSTANTS SLOTS,
+          CheckDrops,  \* TRUE: destructor events are checked (C07); FALSE: they are only recorded
           StepBound   \* C08: own steps an operation may still need once everybody else is paused
 
 VARIABLES q,        \* values whose send took effect and that were not taken yet
@@ -101,7 +102,8 @@ RetRecv(f, v, solo) ==
 \* The destructor of value v ran.
 Drop(f, v) ==
     /\ v \in DOMAIN where
-    /\ \/ where[v] = "receiver" /\ \A g \in DOMAIN ops : ops[g].v # v   \* returned to the caller
+    /\ \/ ~CheckDrops
+       \/ where[v] = "receiver" /\ \A g \in DOMAIN ops : ops[g].v # v   \* returned to the caller
        \/ where[v] = "sender" /\ \E g \in DOMAIN ops : ops[g].v = v /\ ops[g].phase = "dropping"
        \/ where[v] = "cell" /\ chanGone
     /\ SetWhere(v, "gone")
@@ -157,7 +159,7 @@ Release(f) ==
 Internal(f) == Reserve(f) \/ DropFull(f) \/ Commit(f) \/ Take(f) \/ Empty(f) \/ Release(f)
 
 \* Everything created has been destroyed exactly once and nothing is in progress.
-Quiescent == DOMAIN ops = {} /\ \A v \in DOMAIN where : where[v] = "gone"
+Quiescent == DOMAIN ops = {} /\ (CheckDrops => \A v \in DOMAIN where : where[v] = "gone")
 
 SlotsBounded == inUse <= SLOTS /\ Len(q) <= inUse
 =============================================================================
